@@ -1,11 +1,12 @@
 #!/bin/bash
+# usage: [PROPS="10 14"] tools/benign.sh   (default: all 20 checks against every benign patch)
 cd /verif
 mkdir -p /tmp/evsave_ben && cp /verif/evidence/*.json /tmp/evsave_ben/
 for d in /verif/benign/*; do
   [ -f $d/patch.diff ] || continue
   echo "== BENIGN $d"
   git -C /repo apply $d/patch.diff || { echo "apply failed"; continue; }
-  for i in 01 02 03 04 05 06 07 08 09 10 11 12 13 14 15 16 17 18 19 20; do
+  for i in ${PROPS:-01 02 03 04 05 06 07 08 09 10 11 12 13 14 15 16 17 18 19 20}; do
     out=$(timeout 1800 ./check C$i --tier quick 2>&1); rc=$?
     echo "C$i rc=$rc $(echo "$out" | grep -m1 '^VIOLATION' | cut -c1-160)"
     if [ $rc -ne 0 ]; then echo "$out" | tail -4 | cut -c1-300; fi
